@@ -155,7 +155,10 @@ package didnuts
 // already present (jwx: key.go), so the kid member must have been discarded from this key first.
 //@ func (verificationMethodValidator).verifyThumbprint
 //@   prop C09 C19
+//@   safety
+//@   requires method != nil
 //@   assume-benign
+//@   ensures [method-without-jwk-is-refused] method.PublicKeyJwk == nil ==> !isNilIface(result)
 //@   call jwk.AssignKeyID #1 requires [kid-member-discarded-first] isNilIface(ret(call (did.VerificationMethod).JWK #1).1)
 //@        && arg(0) == ret(call (did.VerificationMethod).JWK #1).0 && same(arg(call (did.VerificationMethod).JWK #1, 0), *method)
 //@        && did(call (jwk.Key).Remove #1) && arg(call (jwk.Key).Remove #1, 0) == arg(0) && arg(call (jwk.Key).Remove #1, 1) == jwk.KeyIDKey
